@@ -268,6 +268,37 @@ func runC14(c *Ctx) error {
 				Input: in})
 		}
 	}
+	// --- family verbatim: schema none / unparsable versions inside real packages
+	famV := c.Rep.Family("verbatim-in-package", "exhaustive: versions that are used verbatim (schema none with semver-shaped and date-shaped strings, and strings that do not parse) x {no release, release 2} x deb, ipk, rpm: the version stated inside the real package must be the configured string, character for character (deb/ipk: between the optional epoch and the optional -release; rpm: the VERSION tag); non-trivial = always")
+	famV.Exhaustive = true
+	for _, vs := range []struct{ version, schema string }{{"2024-01-15", "none"}, {"1.2.3-rc1+b7", "none"}, {"1.2.3.4-hotfix", ""}, {"v1_x", ""}, {"20240115", "none"}, {"1.0-2-3", "none"}} {
+		for _, rel := range []string{"", "2"} {
+			for _, f := range []string{"deb", "ipk", "rpm"} {
+				vs, rel, f := vs, rel, f
+				in := map[string]any{"format": f, "version": vs.version, "version_schema": vs.schema, "release": rel}
+				pm, _, err := buildMeta(f, func(i *nfpm.Info) {
+					i.Version, i.VersionSchema, i.Release = vs.version, vs.schema, rel
+					i.Prerelease, i.VersionMetadata = "", ""
+					nfpm.WithDefaults(i)
+				})
+				famV.Eval(fmt.Sprint(in), true)
+				famV.Count(f)
+				if err != nil {
+					famV.Count(f + ":build-error")
+					continue
+				}
+				want := vs.version
+				got := pm.Version
+				if f != "rpm" && rel != "" {
+					want += "-" + rel
+				}
+				if got != want {
+					c.Rep.Find(report.Finding{Property: "C14", Family: "verbatim-in-package", Shape: f + ":verbatim-version-altered",
+						What: fmt.Sprintf("the version %q is to be used verbatim (schema %q); the %s package states %q, expected %q", vs.version, vs.schema, f, got, want), Input: in})
+				}
+			}
+		}
+	}
 	// --- family order: version strings inside real packages, prerelease < release
 	fam3 := c.Rep.Family("ordering", "for generated semantic versions with a prerelease (x metadata x release x epoch): the version strings found inside real deb/ipk/rpm packages of the prerelease build and of the corresponding release build; model rendering vs package; prerelease must sort strictly before release under dpkg's / rpm's algorithm (model comparators; dpkg --compare-versions as oracle for the dpkg comparator when installed); numeric and epoch ordering on neighbouring versions; non-trivial = every case")
 	k := c.N(60, 1500)
@@ -316,6 +347,11 @@ func runC14(c *Ctx) error {
 			}
 			if a != got {
 				c.Rep.Disagree(report.Disagreement{Family: "ordering", What: "version field inside the " + f + " package vs model rendering", Input: in, Model: a, Impl: got})
+			}
+			// no component lost or altered: the build metadata is carried as written
+			if meta != "" && (f == "deb" || f == "ipk" || f == "rpm") && !strings.Contains(pmPre.Version, "+"+meta) {
+				c.Rep.Find(report.Finding{Property: "C14", Family: "ordering", Shape: f + ":version-metadata-not-carried-as-written",
+					What: fmt.Sprintf("the configuration states build metadata %q; the %s package states version %q", meta, f, pmPre.Version), Input: in})
 			}
 			switch f {
 			case "deb", "ipk":
